@@ -13,6 +13,11 @@ case $p in
  C15) t="tests/structure/test_geometry.py tests/structure/test_box.py";;
  C17) t="tests/structure/test_residues.py tests/structure/test_chains.py tests/structure/test_molecules.py";;
  C18) t="tests/structure/io/test_mol.py";;
+ C01) t="tests/structure/test_atoms.py";;
+ C02) t="tests/structure/test_bonds.py";;
+ C05) t="tests/structure/io/test_pdbx.py";;
+ C11) t="tests/sequence/align/test_alignment.py tests/sequence/align/test_cigar.py tests/sequence/align/test_multiple.py";;
+ C14) t="tests/structure/test_celllist.py";;
  *) t="";;
 esac
 tt=""; for f in $t; do [ -e $wt/$f ] && tt="$tt $f"; done
